@@ -18,48 +18,159 @@ static QByteArray saslName(const QString &user)
     }
     return out;
 }
+static bool plainName(const QString &user)
+{
+    for (int i = 0; i < user.size(); i++) if (user.at(i) == u',' || user.at(i) == u'=') return false;
+    return true;
+}
+static QByteArray hmac(QCryptographicHash::Algorithm alg, const QByteArray &key, const QByteArray &msg) { return QMessageAuthenticationCode::hash(msg, key, alg); }
+static void hintPieces(const QByteArray &m, unsigned a, unsigned b = ~0u, unsigned c = ~0u, unsigned d = ~0u)
+{
+    vp_split_hint_begin(&m, ',');
+    vp_split_hint_piece(a); if (b != ~0u) vp_split_hint_piece(b); if (c != ~0u) vp_split_hint_piece(c); if (d != ~0u) vp_split_hint_piece(d);
+}
 struct Client {
     QByteArray cnonce; QString user, password; SaslScramMechanism mech;
     std::unique_ptr<QXmppSaslClientScram> c;
-    // a client after the (real) constructor, setters and step 0
-    Client(int maxNonce = 2)
+    // a client after the (real) constructor, the setters; lengths are per-instance constants, contents arbitrary
+    Client(unsigned nlen, unsigned ulen, unsigned plen)
     {
-        cnonce = vpBytesExact(C06_NLEN); vp_assume(!cnonce.isEmpty() && vpNoByte(cnonce, ','));   // nonce = printable without ',' (RFC 5802 "printable"); qxmpp uses base64 text
+        cnonce = vpBytesExact(nlen); vp_assume(vpNoByte(cnonce, ','));   // RFC 5802: nonce = printable without ','
         QXmppSaslDigestMd5::setNonce(cnonce);
         mech = symMech();
         c = std::make_unique<QXmppSaslClientScram>(mech, nullptr);
-        user = vpStringExact(C06_ULEN); password = vpStringExact(C06_PLEN); vp_assume(vpAscii(user) && vpAscii(password));
+        user = vpStringExact(ulen); password = vpStringExact(plen); vp_assume(vpAscii(user) && vpAscii(password));
         c->setUsername(user);
-        Credentials cr; cr.password = password; c->setCredentials(cr);
+        Credentials cr; cr.password = password; c->QXmppSaslClientScram::setCredentials(cr);
     }
 };
 
 // client-first-message = "n,," "n=" saslname ",r=" c-nonce
-extern "C" void h_scram_first()
+static void scramFirst(bool excludeKnown)
 {
-    Client k;
-#if defined(KF_scram_username_unescaped) && !defined(C06_DEMO_KF)
-    vp_assume(saslName(k.user) == k.user.toUtf8());
-#endif
+    Client k(vp_cfg(0), vp_cfg(1), vp_cfg(2));
+    if (excludeKnown) vp_assume(plainName(k.user));
     auto r0 = k.c->respond(QByteArray());
     vp_assert(r0.has_value(), "C06 SCRAM client-first is produced");
     QByteArray exp("n,,n="); exp.append(saslName(k.user)); exp.append(",r="); exp.append(k.cnonce);
     if (r0) vp_assert(*r0 == exp, "C06 SCRAM client-first = 'n,,n=' saslname(user) ',r=' nonce with ',' and '=' of the user name escaped (RFC 5802 5.1)");
     vp_assert(k.c->m_step == 1, "C06 SCRAM step advances");
 }
-
-// server-first = ARBITRARY bytes: whatever is accepted, the nonce echoed back extends the client nonce and PBKDF2 never runs on an
-// empty salt or an iteration count < 1 (the two latter are asserted inside the PBKDF2 oracle)
-extern "C" void h_scram_refuse_any()
+extern "C" void h_scram_first()
 {
-    Client k;
+#ifdef KF_scram_username_unescaped
+    scramFirst(true);
+#else
+    scramFirst(false);
+#endif
+}
+extern "C" void h_scram_first_kf() { scramFirst(false); }   // demonstrates the known finding
+
+// Whole exchange with a server-first of honest SHAPE "r=N,s=S,i=I" but arbitrary N, S, I (fixed lengths per instance):
+// accepted iff N extends the client nonce, S decodes to a non-empty salt, I is a number >= 1; if accepted the client-final,
+// the proof and the expected server signature are those of RFC 5802 section 3; server-final accepted iff v = ServerSignature.
+extern "C" void h_scram_exchange()
+{
+    Client k(vp_cfg(0), vp_cfg(1), vp_cfg(2));
     auto r0 = k.c->respond(QByteArray());
-    QByteArray sf = vpBytesN(C06_SFLEN); vp_assume(vpCountByte(sf, ',') <= 3);
+    vp_assume(r0.has_value());
+    unsigned ln = vp_cfg(3), ls = vp_cfg(4), li = vp_cfg(5);
+    QByteArray N = vpBytesExact(ln), S = vpBytesExact(ls), I = vpBytesExact(li);
+    vp_assume(vpNoByte(N, ',') && vpNoByte(S, ',') && vpNoByte(I, ','));
+    QByteArray sf("r="); sf.append(N); sf.append(",s="); sf.append(S); sf.append(",i="); sf.append(I);
+    hintPieces(sf, 2 + ln, 2 + ls, 2 + li);
+    auto r1 = k.c->respond(sf);
+    vp_orc_seal(6);
+    // what the message means
+    bool okI = false; int iters = I.toInt(&okI);
+    QByteArray salt = QByteArray::fromBase64(S);
+    bool expectAccept = N.startsWith(k.cnonce) && !salt.isEmpty() && okI && iters >= 1;
+    vp_assert(r1.has_value() == expectAccept, "C06 SCRAM server-first accepted iff nonce extends the client nonce, salt is non-empty and the iteration count is >= 1");
+    if (!r1 || !expectAccept) {
+        if (!r1) vp_assert(vp_orc_count() == 6 && vp_orc_kind(0) == 0, "C06 SCRAM: nothing is derived from the password for a refused server-first");
+        return;
+    }
+    auto alg = k.mech.qtAlgorithm();
+    QByteArray cfb = r0->mid(3);                                   // client-first-message-bare as sent
+    QByteArray cfwp("c=biws,r="); cfwp.append(N);                  // client-final-message-without-proof
+    QByteArray am(cfb); am.append(','); am.append(sf); am.append(','); am.append(cfwp);
+    QByteArray sp = QPasswordDigestor::deriveKeyPbkdf2(alg, k.password.toUtf8(), salt, iters, quint64(QCryptographicHash::hashLength(alg)));
+    QByteArray ck = hmac(alg, sp, QByteArray("Client Key"));
+    QByteArray sk = QCryptographicHash::hash(ck, alg);
+    QByteArray cs = hmac(alg, sk, am);
+    QByteArray proof(cs);
+    for (int i = 0; i < proof.size(); i++) proof[i] = char(ck.at(i) ^ cs.at(i));
+    QByteArray expFinal(cfwp); expFinal.append(",p="); expFinal.append(proof.toBase64());
+    vp_assert(*r1 == expFinal, "C06 SCRAM client-final = 'c=biws,r=' nonce ',p=' base64(ClientKey XOR HMAC(H(ClientKey), AuthMessage)) with RFC 5802 key derivation");
+    QByteArray ssig = hmac(alg, hmac(alg, sp, QByteArray("Server Key")), am);
+    vp_assert(k.c->m_serverSignature == ssig, "C06 SCRAM expected ServerSignature = HMAC(HMAC(SaltedPassword,'Server Key'), AuthMessage)");
+    vp_assert(k.c->m_step == 2, "C06 SCRAM step 2 after client-final");
+    // server-final
+    QByteArray V = vpBytesExact(vp_diglen());
+    QByteArray fin("v="); fin.append(V.toBase64());
+    hintPieces(fin, fin.size());
+    auto r2 = k.c->respond(fin);
+    vp_assert(r2.has_value() == (V == ssig), "C06 SCRAM server-final accepted iff v is the ServerSignature");
+    if (r2) vp_assert(r2->isEmpty(), "C06 SCRAM answer to server-final is empty");
+    auto r3 = k.c->respond(QByteArray());
+    vp_assert(!r3.has_value(), "C06 SCRAM: no further challenge is answered");
+}
+
+// Refusal with arbitrary attribute names: "k1e1V1,k2e2V2,k3e3V3" with arbitrary bytes k, e and values (no ',' inside a value):
+// covers missing / duplicated / permuted / malformed attributes. Whatever is accepted echoes a nonce extending the client nonce,
+// and PBKDF2 never runs with an empty salt or iteration count < 1 (asserted inside the PBKDF2 oracle).
+extern "C" void h_scram_refuse_attrs()
+{
+    Client k(vp_cfg(0), vp_cfg(1), vp_cfg(2));
+    auto r0 = k.c->respond(QByteArray());
+    vp_assume(r0.has_value());
+    unsigned lv = vp_cfg(3);
+    QByteArray sf;
+    for (int f = 0; f < 3; f++) {
+        QByteArray kv = vpBytesExact(2 + lv); vp_assume(vpNoByte(kv, ','));
+        if (f) sf.append(',');
+        sf.append(kv);
+    }
+    hintPieces(sf, 2 + lv, 2 + lv, 2 + lv);
     auto r1 = k.c->respond(sf);
     if (r1) {
         QByteArray pre("c=biws,r="); pre.append(k.cnonce);
         vp_assert(r1->startsWith(pre), "C06 SCRAM: an accepted server-first carries a nonce that extends the client nonce");
-        vp_assert(vp_orc_count() > 0, "C06 SCRAM: a client-final needs the salted password");
+        vp_assert(vp_orc_count() == 5, "C06 SCRAM: PBKDF2, ClientKey, StoredKey, ClientSignature, ServerKey/ServerSignature are computed on acceptance");
         vp_assert(k.c->m_step == 2, "C06 SCRAM step advances to 2 on acceptance");
+    }
+}
+
+// server-final = arbitrary "a b X" (two arbitrary bytes + value) at step 2 with an arbitrary stored signature
+extern "C" void h_scram_final_any()
+{
+    Client k(vp_cfg(0), vp_cfg(1), vp_cfg(2));
+    k.c->m_step = 2; k.c->m_serverSignature = vpBytesExact(vp_diglen());
+    QByteArray fin = vpBytesExact(2 + 2 * vp_diglen()); vp_assume(vpNoByte(fin, ','));
+    hintPieces(fin, fin.size());
+    auto r2 = k.c->respond(fin);
+    bool ok = fin.at(0) == 'v' && fin.at(1) == '=' && QByteArray::fromBase64(fin.mid(2)) == k.c->m_serverSignature;
+    vp_assert(r2.has_value() == ok, "C06 SCRAM server-final accepted iff it is v=base64(ServerSignature)");
+    vp_assert(k.c->m_step == 3, "C06 SCRAM step 3 after server-final");
+}
+
+// parseGS2 on arbitrary bytes = attribute map of the RFC 5802 grammar (attr "=" value, separated by ','; the last duplicate wins)
+extern "C" void h_parse_gs2()
+{
+    QByteArray m = vpBytesN(C06_GS2LEN); vp_assume(vpCountByte(m, ',') <= 3);
+    auto map = parseGS2(m);
+    const char keys[4] = { 'r', 's', 'i', 'v' };
+    for (char key : keys) {
+        // reference: scan the pieces
+        int start = 0, vs = -1, ve = -1;
+        for (int i = 0; i <= m.size(); i++) {
+            if (i == m.size() || m.at(i) == ',') {
+                if (i - start >= 2 && m.at(start) == key && m.at(start + 1) == '=') { vs = start + 2; ve = i; }
+                start = i + 1;
+            }
+        }
+        QByteArray got = map.value(key);
+        if (vs < 0) vp_assert(got.isEmpty(), "C06 parseGS2: attribute absent => empty value");
+        else vp_assert(got == m.mid(vs, ve - vs), "C06 parseGS2: value of the (last) attribute with that name");
     }
 }
